@@ -764,6 +764,44 @@ func plantedLowCost(r *world.Rng, maxN int) (int, []ref.Con, *ref.Cost) {
 	return n, cs, cost
 }
 
+// spreadCost: 4-8 variables, short clauses, a cost function over 3-5 literals whose weights roughly double
+// (or are distinct and spread), and often a variable fixed by a pair of clauses (a|b)(a|-b).
+func spreadCost(r *world.Rng) (int, []ref.Con, *ref.Cost) {
+	n := r.Range(4, 8)
+	var cs []ref.Con
+	m := r.Range(n, 2*n+2)
+	for i := 0; i < m; i++ {
+		k := r.Pick(2, 2, 3, 3, 3)
+		cs = append(cs, ref.Con{Lits: distinctLits(r, n, k), K: 1, Op: ">="})
+	}
+	if r.Bool(0.6) {
+		a, b := lit(r, n), lit(r, n)
+		if abs(a) != abs(b) {
+			cs = append(cs, ref.Con{Lits: []int{a, b}, K: 1, Op: ">="}, ref.Con{Lits: []int{a, -b}, K: 1, Op: ">="})
+		}
+	}
+	cs = append(cs, topVarClause(r, n))
+	k := r.Range(3, min(n, 5))
+	cost := &ref.Cost{Lits: distinctLits(r, n, k), Coefs: make([]int, k)}
+	for i := range cost.Lits {
+		if cost.Lits[i] < 0 && r.Bool(0.7) {
+			cost.Lits[i] = -cost.Lits[i]
+		}
+	}
+	if r.Bool(0.6) {
+		w := 1
+		for _, i := range r.Perm(k) {
+			cost.Coefs[i] = w + r.Pick(0, 0, 0, 1)
+			w *= 2
+		}
+	} else {
+		for i := range cost.Coefs {
+			cost.Coefs[i] = r.Range(1, 12)
+		}
+	}
+	return n, cs, cost
+}
+
 func genC03(r *world.Rng, w *world.World, big bool) {
 	if r.Bool(0.06) {
 		n, cs, cost := plantedLowCost(r, 14)
@@ -772,6 +810,22 @@ func genC03(r *world.Rng, w *world.World, big bool) {
 		for i := range cs {
 			cs[i].Op = ">="
 		}
+		t := world.TaskSpec{Kind: "opt", N: n, Cons: cs, Cost: cost, Route: route, Entry: "all", Cap: capacity(r), Delays: delays(r)}
+		if route == "opb" {
+			t.Text = opbText(r, n, cs, cost)
+			t.Chunks = chunks(r)
+		}
+		w.Tasks = []world.TaskSpec{t}
+		knobs(r, w)
+		schedMulti(r, w)
+		return
+	}
+	if r.Bool(0.15) {
+		// spread-out cost weights over few literals, small clausal problem in which some cost variable is fixed
+		// at top level: the cost bound appended after each step splits into heavy literals (forced) and light
+		// ones (seeded change S8-C03d turned the light remainder into a spurious clause)
+		n, cs, cost := spreadCost(r)
+		route := r.PickS("pb", "cnf", "opb")
 		t := world.TaskSpec{Kind: "opt", N: n, Cons: cs, Cost: cost, Route: route, Entry: "all", Cap: capacity(r), Delays: delays(r)}
 		if route == "opb" {
 			t.Text = opbText(r, n, cs, cost)
@@ -973,7 +1027,12 @@ func wcnfText(r *world.Rng, n int, soft []world.Soft, top int) string {
 	return s
 }
 
-func genC04(r *world.Rng, w *world.World, big bool) {
+func genC04(r *world.Rng, w *world.World, big bool) { genC04x(r, w, big, 0.06) }
+
+// genC04x: overProb is the share of over-constrained instances (dozens of short soft clauses over few
+// variables, no hard clause): the optimum is far from 0 and the optimisation goes through ten and more
+// improvement steps, so result streams are long (seeded change S8-C20e needed nine results in flight).
+func genC04x(r *world.Rng, w *world.World, big bool, overProb float64) {
 	t := world.TaskSpec{Kind: "maxsat"}
 	n := r.Range(1, 9)
 	m := r.Range(1, 12)
@@ -982,6 +1041,12 @@ func genC04(r *world.Rng, w *world.World, big bool) {
 		m = r.Range(10, 18)
 	}
 	wcnf := r.Bool(0.45)
+	over := r.Bool(overProb)
+	if over {
+		wcnf = true
+		n = r.Range(10, 13)
+		m = r.Range(40, 80)
+	}
 	var soft []world.Soft
 	var poolVec []int
 	for i := 0; i < m; i++ {
@@ -993,7 +1058,9 @@ func genC04(r *world.Rng, w *world.World, big bool) {
 		switch form {
 		case "clause":
 			c = ref.Con{Lits: distinctLits(r, n, r.Range(1, min(n, 4))), K: 1}
-			if r.Bool(0.08) {
+			if over {
+				c = ref.Con{Lits: distinctLits(r, n, r.Pick(2, 2, 2, 3)), K: 1}
+			} else if r.Bool(0.08) {
 				// a clause may write a literal more than once: it still is the same clause
 				x := c.Lits[r.Intn(len(c.Lits))]
 				c.Lits = append(c.Lits, x)
@@ -1052,6 +1119,9 @@ func genC04(r *world.Rng, w *world.World, big bool) {
 		} else if m >= 10 && r.Bool(0.6) {
 			wgt = r.Range(1, 12)
 		}
+		if over {
+			wgt = r.Range(1, 9)
+		}
 		soft = append(soft, world.Soft{Con: c, Weight: wgt, Form: form})
 	}
 	t.N = n
@@ -1104,6 +1174,34 @@ func genC04(r *world.Rng, w *world.World, big bool) {
 // ---- C14 --------------------------------------------------------------------------
 
 func genC14(r *world.Rng, w *world.World, big bool) {
+	if r.Bool(0.15) {
+		// clausal problems with enough conflicts for the cutting-planes machinery to cycle many times on one
+		// solver: Luby restarts, reduceLearnedPB / unwatchPB while learned constraints are still reasons of
+		// trail literals, learned constraints built after a reduction (seeded change S8-C14d recycled the
+		// storage of removed constraints). Judged by the reference DPLL and by evaluating the model.
+		n, cl := cnfInstance(r, r.Range(18, 45), false)
+		if r.Bool(0.06) || (big && r.Bool(0.1)) {
+			n = r.Range(50, 70)
+			cl = randKSAT(r, n, int(float64(n)*(4.1+0.4*r.Float())), 3, 3)
+		}
+		t := world.TaskSpec{Kind: "cnf", N: n, Clauses: cl, Route: r.PickS("slice", "slicenb"), CP: true}
+		if t.Route == "slice" {
+			t.N = 0
+		}
+		w.Tasks = []world.TaskSpec{t}
+		knobs(r, w)
+		if r.Bool(0.7) {
+			if w.Knobs == nil {
+				w.Knobs = map[string]int{}
+			}
+			w.Knobs["initNbMaxClauses"] = r.Pick(1, 2, 3, 5, 10, 30)
+			w.Knobs["incrNbMaxClauses"] = r.Pick(0, 1, 3)
+			w.Knobs["incrPostponeNbMax"] = r.Pick(0, 1, 10)
+			w.Knobs["lubyConstant"] = r.Pick(1, 2, 8, 32)
+		}
+		schedSingle(r, w)
+		return
+	}
 	route := r.PickS("pb", "pb", "card", "cnf", "opb")
 	forms := []string{"clause", "card", "pb", "pb"}
 	switch route {
@@ -1216,13 +1314,30 @@ func genC20(r *world.Rng, w *world.World, big bool) {
 		}
 	case 1: // maxsat forwarding pipeline
 		save := world.World{}
-		genC04(r, &save, big)
+		genC04x(r, &save, big, 0.25)
 		for save.Tasks[0].Route != "wcnf" {
 			save = world.World{}
-			genC04(r, &save, big)
+			genC04x(r, &save, big, 0.25)
 		}
 		t = save.Tasks[0]
 		t.Entry = "wcnf-chan"
+		if len(t.Soft) >= 40 && r.Bool(0.6) {
+			// long stream expected: a consumer that is far behind from the start (everything is produced while it
+			// sleeps) or falls far behind in the middle, on a channel that cannot absorb the backlog
+			w.Tasks = []world.TaskSpec{t}
+			t.Cap = r.Pick(0, 0, 1, 2)
+			if r.Bool(0.5) {
+				t.Delays = []int64{3_600_000_000_000}
+			} else {
+				t.Delays = []int64{0, 0, int64(r.Pick(-2000, -20000, 3_600_000_000_000)), 0, 0, 0, 0, 0, 0, 0, 0, 0, 0, 0, 0, 0}
+			}
+			t.Stop = false
+			w.Tasks = []world.TaskSpec{t}
+			knobs(r, w)
+			schedMulti(r, w)
+			w.Sched.Burst = r.Pick(1, 3, 10, 50, 300, 2000)
+			return
+		}
 	case 2: // enumeration
 		save := world.World{}
 		genC05(r, &save, big)
